@@ -335,7 +335,7 @@ def run(chk):
 
     # ------------------------------------------------------------------ (i) model / implementation / Python on the core
     cases = []   # (op, operands, expr, model line, oracle)
-    n_core = 1000 if quick else 40000
+    n_core = 1000 if quick else 20000
 
     def orc(f):
         try:
@@ -473,7 +473,7 @@ def run(chk):
             unusable.append(sig_key(s) + " (" + d[:60] + ")")
         else:
             usable.append(s)
-    per = 20 if quick else 800
+    per = 20 if quick else 300
     fcases = []
     for s in usable:
         for _ in range(per):
